@@ -92,6 +92,21 @@ def check(run):
         cases.append(["new:0", "a%s:0:0" % T_, "a%s:0:0.1.1366104114" % T_, "a%s:0:0" % T_, "g%s:0:0" % T_, "g%s:0:1" % T_, "s%s:0" % T_])
         cases.append(["new:0", "a%s:0:0.1.1366104114" % T_, "a%s:0:0" % T_, "a%s:0:0.1.1366104114" % T_, "g%s:0:0" % T_, "g%s:0:1" % T_, "s%s:0" % T_,
                       "cp:1:0:cc", "a%s:1:0" % T_, "a%s:1:0.1.1366104114" % T_])
+    # long strings (TXT/DNSKEY/RRSIG RDATA, long names, payloads): equal ones share an entry, ones that differ in a single byte - early,
+    # around the 64th, or last - do not
+    for L in (63, 64, 65, 66, 100, 255, 256, 1000, 4096):
+        base = bytes(rng.randrange(256) for _ in range(L))
+        variants = [base] + [base[:k] + bytes([base[k] ^ 1]) + base[k + 1:] for k in sorted({0, min(L - 1, 63), min(L - 1, 64), L - 1})]
+        for T_ in ("nr", "ip"):
+            toks = ["new:0"]
+            for v in variants + variants[::-1] + [base]:
+                toks.append("a%s:0:%s" % (T_, T.xh(v)))
+            toks += ["g%s:0:%d" % (T_, j) for j in range(len(variants))] + ["s%s:0" % T_]
+            cases.append(toks)
+        toks = ["new:0"]
+        for v in variants + variants[::-1]:
+            toks.append("amd:0:1.53.1.%s" % T.xh(v))
+        cases.append(toks + ["smd:0"])
     compare(run, cases, seen, "tbl")
     # isolation between consecutive blocks + referential closure through the exporter
     sessions = [refexp.gen_session(rng, nops=rng.randrange(20, 120), maxes=[1, 2, 3]) for _ in range(150 if quick else 5000)]
